@@ -466,7 +466,9 @@ theorem tie_internal_opcodes : C02Cu.internalOpcodes = [1, 10, 12] ∧
 
 /-- **Flush groups.** A driver flush goes to the L1I, L1S, L1V and L2 caches, in this order; the invalidation before a
 kernel goes to the L1S and L1V caches (a sub-list of the flushed groups); `processLaunchKernelReq` first needs a free
-dispatcher, then no cache acknowledgement outstanding, then runs the invalidation. -/
+dispatcher, then no cache acknowledgement outstanding, then no TLB shootdown in process (the guard added by the
+repair of finding `C11-cp-launch-in-shootdown`; like the same guard of `processFlushReq` it is constantly false in
+`C02.L1`, which has no shootdown — the interplay is C11's `cps_no_fault_full`), then runs the invalidation. -/
 theorem tie_flush_groups :
     C02Cu.flushGroups = ["L1ICaches", "L1SCaches", "L1VCaches", "L2Caches"] ∧
     C02Cu.flushGuards = [("m.numCacheACK>0", "false"), ("m.shootDownInProcess", "false")] ∧
@@ -474,7 +476,8 @@ theorem tie_flush_groups :
     C02Cu.invalidateGroups.all (fun g => C02Cu.flushGroups.contains g) = true ∧
     C02Cu.invalidateGuards = [("m.l1InvalidatedFor==req", "m.l1InvalidatedFor=nil;return false"), ("m.numCacheACK==0", "false")] ∧
     C02Cu.invalidateBusyCheck = ["{ifd.IsDispatching(){returnfalse}}"] ∧
-    C02Cu.launchGuards = [("d==nil", "false"), ("m.numCacheACK>0", "false"), ("m.invalidateL1CachesBeforeKernel(req)", "true")] := by
+    C02Cu.launchGuards = [("d==nil", "false"), ("m.numCacheACK>0", "false"), ("m.shootDownInProcess", "false"),
+      ("m.invalidateL1CachesBeforeKernel(req)", "true")] := by
   decide
 
 end C02
